@@ -3,7 +3,7 @@
 //! else in the harness reaches that copy): every `pub(crate)` calendar routine
 //! of the file, on every date, against the successor machine.
 
-use crate::shared::util::itime::{self, IDate, IDateTime, IEpochDay, IOffset, ITime, ITimeNanosecond, ITimeSecond, ITimestamp, IWeekday};
+use super::shared::util::itime::{self, IDate, IDateTime, IEpochDay, IOffset, ITime, ITimeNanosecond, ITimeSecond, ITimestamp, IWeekday};
 use rayon::prelude::*;
 use refmodel::cal::{self, Succ};
 use vf::{guard, panic_sig, Report};
@@ -51,7 +51,7 @@ const NS: i128 = 1_000_000_000;
 pub const N_STATIC_EXT: u64 = 88;
 
 pub fn check_idate_ext(r: &Report, s: &Succ, min: i64, max: i64, all: bool) {
-    let case = || format!("static {:04}-{:02}-{:02}", s.y, s.m, s.d);
+    let case = || format!("{} {:04}-{:02}-{:02}", super::PFX, s.y, s.m, s.d);
     let nx = s.next();
     let pv = s.prev();
     let res = guard(|| -> Vec<(&'static str, String)> {
@@ -218,10 +218,10 @@ pub fn check_idate_ext(r: &Report, s: &Succ, min: i64, max: i64, all: bool) {
         bad
     });
     match res {
-        Err(p) => r.viol("static_itime", &format!("static/{}", panic_sig(&p)), case(), p),
+        Err(p) => r.viol(super::SEC, &format!("{}/{}", super::PFX, panic_sig(&p)), case(), p),
         Ok(bad) => {
             for (name, detail) in bad {
-                r.viol("static_itime", &format!("static/{}", name), case(), detail);
+                r.viol(super::SEC, &format!("{}/{}", super::PFX, name), case(), detail);
             }
         }
     }
@@ -279,12 +279,12 @@ pub fn run_small(r: &Report) {
         bad
     });
     r.add_validated(n);
-    r.count("static_small_cases", n);
+    r.count(&format!("{}_small_cases", super::PFX), n);
     match res {
-        Err(p) => r.viol("static_itime", &format!("static/{}", panic_sig(&p)), "static small alphabets", p),
+        Err(p) => r.viol(super::SEC, &format!("{}/{}", super::PFX, panic_sig(&p)), "static small alphabets", p),
         Ok(bad) => {
             for (name, detail) in bad {
-                r.viol("static_itime", &format!("static/{}", name), detail.clone(), detail);
+                r.viol(super::SEC, &format!("{}/{}", super::PFX, name), detail.clone(), detail);
             }
         }
     }
@@ -309,13 +309,13 @@ pub fn run_small(r: &Report) {
                         let back = ITimestamp { second: want.0, nanosecond: want.1 }.to_datetime(IOffset { second: off });
                         ((ts.second, ts.nanosecond), back)
                     }) {
-                        Err(p) => r.viol("static_itime", &format!("static/{}", panic_sig(&p)), format!("static {:?} off={}", dt, off), p),
+                        Err(p) => r.viol(super::SEC, &format!("{}/{}", super::PFX, panic_sig(&p)), format!("static {:?} off={}", dt, off), p),
                         Ok((ts, back)) => {
                             if ts != want {
-                                r.viol("static_itime", "static/IDateTime::to_timestamp", format!("static {:?} off={}", dt, off), format!("jiff-static {:?} model {:?}", ts, want));
+                                r.viol(super::SEC, &format!("{}/IDateTime::to_timestamp", super::PFX), format!("static {:?} off={}", dt, off), format!("jiff-static {:?} model {:?}", ts, want));
                             }
                             if back != dt {
-                                r.viol("static_itime", "static/ITimestamp::to_datetime", format!("static ts={:?} off={}", want, off), format!("jiff-static {:?} model {:?}", back, dt));
+                                r.viol(super::SEC, &format!("{}/ITimestamp::to_datetime", super::PFX), format!("static ts={:?} off={}", want, off), format!("jiff-static {:?} model {:?}", back, dt));
                             }
                         }
                     }
@@ -325,5 +325,59 @@ pub fn run_small(r: &Report) {
         })
         .sum();
     r.add_validated(m * 2);
-    r.count("static_second_walk_cases", m);
+    r.count(&format!("{}_second_walk_cases", super::PFX), m);
+}
+
+pub fn check_idate(r: &Report, s: &Succ, min: i64, max: i64) {
+    let case = || format!("{} {:04}-{:02}-{:02}", super::PFX, s.y, s.m, s.d);
+    let res = guard(|| -> Vec<(&'static str, String)> {
+        let mut bad = vec![];
+        let d = match IDate::try_new(s.y as i16, s.m as i8, s.d as i8) {
+            Ok(d) => d,
+            Err(e) => return vec![("try_new", e.to_string())],
+        };
+        macro_rules! chk {
+            ($name:expr, $got:expr, $want:expr) => {
+                let g = $got;
+                let w = $want;
+                if g != w {
+                    bad.push(($name, format!("jiff-static {:?} model {:?}", g, w)));
+                }
+            };
+        }
+        chk!("to_epoch_day", d.to_epoch_day().epoch_day as i64, s.epoch_day);
+        let back = IEpochDay { epoch_day: s.epoch_day as i32 }.to_date();
+        chk!("to_date", (back.year as i64, back.month as i64, back.day as i64), (s.y, s.m, s.d));
+        chk!("weekday", (d.weekday().to_monday_one_offset() % 7) as u8, s.wd);
+        chk!("epoch_weekday", (IEpochDay { epoch_day: s.epoch_day as i32 }.weekday().to_monday_one_offset() % 7) as u8, s.wd);
+        chk!("days_in_month", itime::days_in_month(s.y as i16, s.m as i8) as i64, cal::days_in_month(s.y, s.m));
+        chk!("is_leap_year", itime::is_leap_year(s.y as i16), cal::is_leap(s.y));
+        let n = s.next();
+        let tom = d.tomorrow().ok().map(|t| (t.year as i64, t.month as i64, t.day as i64));
+        chk!("tomorrow", tom, if s.epoch_day < max { Some((n.y, n.m, n.d)) } else { None });
+        let p = s.prev();
+        let yes = d.yesterday().ok().map(|t| (t.year as i64, t.month as i64, t.day as i64));
+        chk!("yesterday", yes, if s.epoch_day > min { Some((p.y, p.m, p.d)) } else { None });
+        if s.d == 1 {
+            for nth in [-5i64, -1, 1, 2, 5] {
+                for wd in 0..7u8 {
+                    let want = cal::nth_weekday_of_month(s.y, s.m, nth, wd);
+                    let got = d
+                        .nth_weekday_of_month(nth as i8, IWeekday::from_sunday_zero_offset(wd as i8))
+                        .ok()
+                        .map(|t| cal::days_from_civil(t.year as i64, t.month as i64, t.day as i64));
+                    chk!("nth_weekday_of_month", got, want);
+                }
+            }
+        }
+        bad
+    });
+    match res {
+        Err(p) => r.viol(super::SEC, &format!("{}/{}", super::PFX, panic_sig(&p)), case(), p),
+        Ok(bad) => {
+            for (name, detail) in bad {
+                r.viol(super::SEC, &format!("{}/{}", super::PFX, name), case(), detail);
+            }
+        }
+    }
 }
